@@ -134,6 +134,7 @@ func (ab *AccessBarrier) doCleanup() {
 	iter := ab.freeq.NewIterator(CompareBS, buf1)
 	defer iter.Close()
 
+	verifYield(vpClRead, unsafe.Pointer(ab))
 	for iter.SeekFirst(); iter.Valid(); iter.Next() {
 		node := iter.GetNode()
 		bs := (*BarrierSession)(node.Item())
@@ -141,10 +142,12 @@ func (ab *AccessBarrier) doCleanup() {
 			return
 		}
 
+		verifYield(vpClProc, unsafe.Pointer(ab))
 		atomic.AddUint64(&ab.freeSeqno, 1)
 		ab.callb(bs.objectRef)
 		ab.freeq.DeleteNode(node, CompareBS, buf2, &ab.freeq.Stats)
 		ab.numFreed++
+		verifYield(vpClRead, unsafe.Pointer(ab))
 	}
 }
 
@@ -168,7 +171,9 @@ func (ab *AccessBarrier) hasReadySession() bool {
 func (ab *AccessBarrier) Acquire() *BarrierSession {
 	if ab.active {
 	retry:
+		verifYield(vpAcqLoad, unsafe.Pointer(ab))
 		bs := (*BarrierSession)(atomic.LoadPointer(&ab.session))
+		verifYield(vpAcqAdd, unsafe.Pointer(ab))
 		liveCount := atomic.AddInt32(bs.liveCount, 1)
 		if liveCount > barrierFlushOffset {
 			ab.Release(bs)
@@ -184,6 +189,7 @@ func (ab *AccessBarrier) Acquire() *BarrierSession {
 // Release marks leaving of an accessor in the skiplist
 func (ab *AccessBarrier) Release(bs *BarrierSession) {
 	if ab.active {
+		verifYield(vpRelDec, unsafe.Pointer(ab))
 		liveCount := atomic.AddInt32(bs.liveCount, -1)
 		if liveCount == barrierFlushOffset {
 			buf := ab.freeq.MakeBuf()
@@ -191,18 +197,24 @@ func (ab *AccessBarrier) Release(bs *BarrierSession) {
 
 			// Accessors which entered a closed barrier session steps down automatically
 			// But, they may try to close an already closed session.
+			verifYield(vpRelClosed, unsafe.Pointer(ab))
 			if atomic.AddInt32(&bs.closed, 1) == 1 {
+				verifYield(vpRelInsert, unsafe.Pointer(ab))
 				if !ab.freeq.Insert(unsafe.Pointer(bs), CompareBS, buf, &ab.freeq.Stats) {
 					panic("unable to insert barrier session into free list")
 				}
+				verifYield(vpRelTryLock, unsafe.Pointer(ab))
 				for atomic.CompareAndSwapInt32(&ab.isDestructorRunning, 0, 1) {
 					ab.doCleanup()
+					verifYield(vpRelUnlock, unsafe.Pointer(ab))
 					atomic.CompareAndSwapInt32(&ab.isDestructorRunning, 1, 0)
+					verifYield(vpRelRecheck, unsafe.Pointer(ab))
 					// A session queued while the flag was held found it taken
 					// and gave up; pick it up instead of leaving it pending.
 					if !ab.hasReadySession() {
 						break
 					}
+					verifYield(vpRelTryLock, unsafe.Pointer(ab))
 				}
 			}
 		} else if liveCount < 0 || liveCount == barrierFlushOffset-1 {
@@ -215,19 +227,24 @@ func (ab *AccessBarrier) Release(bs *BarrierSession) {
 // The caller should provide the destructor pointer for the new session.
 func (ab *AccessBarrier) FlushSession(ref unsafe.Pointer) {
 	if ab.active {
+		verifYield(vpFlLock, unsafe.Pointer(ab))
 		ab.Lock()
 		defer ab.Unlock()
 
+		verifYield(vpFlSwap, unsafe.Pointer(ab))
 		bsPtr := atomic.LoadPointer(&ab.session)
 		newBsPtr := unsafe.Pointer(newBarrierSession())
 		atomic.CompareAndSwapPointer(&ab.session, bsPtr, newBsPtr)
 		bs := (*BarrierSession)(bsPtr)
+		verifYield(vpFlTag, unsafe.Pointer(ab))
 		bs.objectRef = ref
 		ab.activeSeqno++
 		bs.seqno = ab.activeSeqno
 		ab.numAllocated++
 
+		verifYield(vpFlAdd, unsafe.Pointer(ab))
 		atomic.AddInt32(bs.liveCount, barrierFlushOffset+1)
 		ab.Release(bs)
+		verifYield(vpFlUnlock, unsafe.Pointer(ab))
 	}
 }
